@@ -5,6 +5,7 @@ from ._floorprop import FloorProp
 class C03(FloorProp):
     id = 'C03'
     profile = 'c03'
+    crash_every = 6
     design_ref = 'DESIGN.md section 4 / C03, 2.3'
     budgets = {'quick': 8000, 'thorough': 300000}
     timeout_s = 30.0
